@@ -61,3 +61,18 @@ Theorem c15_preprocess_pattern_is_the_modelled_one :
 Proof. reflexivity. Qed.
 Print Assumptions c15_preprocess_pattern_is_the_modelled_one.
 End Pattern.
+
+(* BEGIN PINS (tools/repin.py) *)
+From WTP Require Import Gen.GenPins.
+Module Pins.
+Import String.
+(* The models of this property were transcribed from: common.py:nowiki_quote.
+   Gen/GenPins.v holds the digests of these functions in the current source (translate/pins.py: syntax tree without
+   docstrings, comments and layout).  A different digest means that the model is no longer known to describe the
+   code; the check then reports the broken tie and looks for a failing input. *)
+Theorem c15_models_describe_the_current_source :
+  pin_nowiki_quote = "8bee0929ad5382d5"%string.
+Proof. reflexivity. Qed.
+Print Assumptions c15_models_describe_the_current_source.
+End Pins.
+(* END PINS *)
